@@ -367,6 +367,8 @@ def presealMelmint (env : Env) (s : State) : Outcome State :=
   (processSwaps s0).bind fun s1 =>
   (processDeposits env s1).bind fun s2 =>
   (processWithdrawals env s2).bind fun s3 =>
-  processPegging s3
+  -- since the `fix:` for finding F24: a builtin pool emptied by the withdrawals of this block is made afresh
+  -- before pegging (and, in `sealState`, the block subsidy) read its price
+  processPegging (createBuiltins s3)
 
 end Mel
